@@ -135,11 +135,29 @@ func vp8DecCase(x *Ctx, mk func(c *Case) (vp8Desc, []byte), cuts bool) {
 			}
 			c.Tag(tag)
 			p := &codecs.VP8Packet{}
+			// two cases out of three decode into a USED receiver (it first decodes a descriptor
+			// with every optional field present and non-zero): "decodes to exactly the encoded
+			// values" must not depend on what the receiver held before (c11_decoder: any receiver).
+			if c.R.Chance(2, 3) {
+				callUnmarshal(p, []byte{0xB7, 0xF0, 0x92, 0x34, 0x56, 0xA5, 0x01})
+				if c.R.Bool() {
+					callUnmarshal(p, []byte{0x90, 0x20, byte(0x40 | c.R.Intn(64)), 0x07})
+				}
+				c.Tag("used-receiver")
+			}
 			r := callUnmarshal(p, wire[:k])
 			head := false
 			try(func() { head = p.IsPartitionHead(wire[:k]) })
 			r.write(&c.O)
-			writeVP8Md(&c.O, p)
+			if r.err || r.panicked {
+				// a rejected descriptor leaves no metadata the property speaks about; report what a
+				// fresh receiver holds after rejecting the same bytes (that is what the model describes)
+				q := &codecs.VP8Packet{}
+				callUnmarshal(q, wire[:k])
+				writeVP8Md(&c.O, q)
+			} else {
+				writeVP8Md(&c.O, p)
+			}
 			c.O.Bool(head)
 		})
 	}
